@@ -122,6 +122,16 @@ def case_blockinfo(ctx, inp):
     dropping = bool(drop)
     oc = [[int(c) for c in ax] for ax in r.chunks]
     margs = [[list(range(x.ndim))[::-1], [[int(c) for c in ax] for ax in d.chunks]] for x, d in arrs]
+    # which input's chunks each output index got (`blockwise(align_arrays=False)`), against the model
+    if chunks is None:
+        maf = dict((s, c) for s, c in ctx.lean(Sym("alignfalse"), margs))
+        newsyms = {s for s, _ in m_new}
+        for pos, s in enumerate(m_out):
+            if s in newsyms:
+                continue
+            ctx.eq("output chunks of an index (align_arrays=False)", maf.get(s), oc[pos])
+        if any(sum(c) == 1 and len(c) == 1 for _, cs in margs for c in cs) and len(margs) > 1:
+            ctx.branch("align-false-with-broadcast-input")
     blocks = list(itertools.product(*[range(len(c)) for c in r.chunks]))
     if set(infod) != set(blocks):
         ctx.fail("block_info has entries for other blocks than the output grid", observed=sorted(map(list, infod)))
